@@ -157,6 +157,10 @@ Definition applyTP (s : st) (peerIdle peerAdv : Z) : st :=
      creation := creation s; lastRecv := lastRecv s; firstAE := firstAE s; kaSent := kaSent s;
      blocked := blocked s; pacing := pacing s; sentFirst := sentFirst s; closeErr := closeErr s |}.
 
+(** wire: parsing max_idle_timeout. The advertised value is kept, MaxIdleTimeout gets the lower bound
+    protocol.MinRemoteIdleTimeout. *)
+Definition parse_idle (adv : Z) : Z := Z.max rl_MinRemoteIdleTimeout adv.
+
 Definition setHsComplete (s : st) : st :=
   {| cf := cf s; hsComplete := true; idleTimeout := idleTimeout s; kaInterval := kaInterval s;
      creation := creation s; lastRecv := lastRecv s; firstAE := firstAE s; kaSent := kaSent s;
@@ -210,7 +214,9 @@ Inductive ev :=
 | EvRecv (t : Z)              (* a packet was unpacked: handleUnpacked{Long,Short}HeaderPacket *)
 | EvSentAE (now : Z)          (* an ack-eliciting packet was registered as sent *)
 | EvWake (now pto : Z)        (* the loop passes the timeout checks at [now] *)
-| EvHsComplete (peerIdle peerAdv : Z) (* handshake complete + applyTransportParams *)
+| EvHsComplete (peerIdle peerAdv : Z) (* client: handshake complete + applyTransportParams in one go *)
+| EvTP (peerIdle peerAdv : Z)         (* server: applyTransportParams when the parameters arrive ... *)
+| EvHsDone                            (* ... handshake complete later *)
 | EvBlocked (mode : Z)        (* triggerSending set the block mode *)
 | EvClose (e : closeError).   (* a close request from anywhere *)
 
@@ -230,6 +236,8 @@ Definition step (s : st) (e : ev) : st :=
       end
     end
   | EvHsComplete p a => setHsComplete (applyTP s p a)
+  | EvTP p a => applyTP s p a
+  | EvHsDone => setHsComplete s
   | EvBlocked m => upd_timers s (lastRecv s) (firstAE s) (kaSent s) m
   | EvClose ce => setCloseError s ce
   end.
